@@ -3,6 +3,7 @@ use crate::engine::Prop;
 
 pub mod c02_c13;
 pub mod c06;
+pub mod c15;
 pub mod c16;
 pub mod consist_lab;
 pub mod dispatch_lab;
@@ -25,6 +26,7 @@ pub fn get(id: &str) -> Option<Box<dyn Prop>> {
         "C03" | "C07" | "C11" | "C12" | "C14" => Some(Box::new(train_props::TrainProp { which: match id { "C03" => "C03", "C07" => "C07", "C11" => "C11", "C12" => "C12", _ => "C14" } })),
         "C04" => Some(Box::new(dispatch_lab::DispatchProp { which: "C04" })),
         "C05" => Some(Box::new(dispatch_lab::DispatchProp { which: "C05" })),
+        "C15" => Some(Box::new(c15::C15)),
         _ => None,
     }
 }
